@@ -53,6 +53,7 @@ def plan(tier, seed):
                                   'weight': 2})
         units.append({'kind': 'hostile13', 'variants': HOSTILE13, 'rep': rep, 'weight': 4})
         units.append({'kind': 'hostile13-server', 'variants': HOSTILE13_SERVER, 'rep': rep, 'weight': 4})
+        units.append({'kind': 'hostile-tlcp', 'variants': HOSTILE_TLCP, 'rep': rep, 'weight': 4})
     return units
 
 
@@ -556,5 +557,147 @@ def u_hostile13_server(ctx, u):
     cli_ctx.free()
 
 
+HOSTILE_TLCP = ['honest', 'no-certificate-verify', 'certificate-verify-with-other-key', 'certificate-verify-garbage',
+                'certificate-verify-over-other-hash', 'no-certificate-no-verify', 'empty-certificate-list', 'certificate-twice',
+                'foreign-chain-own-key', 'certificate-verify-before-key-exchange', 'server-certificate-as-client']
+
+
+def u_hostile_tlcp(ctx, u):
+    """The verifier is the library's TLCP server with client-authentication trust anchors; the client is the Python peer."""
+    import socket
+    import threading
+    from .. import hostile_tlcp as HT
+    rng = ctx.rng
+    tag = 'c09ht-%d' % u['_i']
+    uu = {'proto': 'tlcp', 'role': 'server-verifies-client'}
+    creds, hooks, mutual = scenario(ctx, uu, None, tag)
+    c_chain, c_priv, _ = build_chain(tag + '-c', None, leaf_cn='client')
+    s_chain, s_priv, _ = build_chain(tag + '-s', None, leaf_cn='server')
+    enc_priv = X.priv_from_seed(tag + '-s', 'leaf', 'enc')
+    try:
+        srv_ctx, cli_ctx = T.pair_ctx(ctx, creds, T.TLCP, True)
+    except AssertionError as e:
+        ctx.check(False, 'control:honest-scenario-failed:tlcp:server-verifies-client', error=str(e))
+        return
+    base = T.run_handshake(ctx, srv_ctx, cli_ctx, seed=rng.randrange(1, 1 << 30), use_proxy=True)
+    ok = base['server'].ret == 1 and base['client'].ret == 1
+    ch = [r for i, d, r in base['proxy'].records if d == 'c>s' and r[0] == T.REC_HANDSHAKE and r[5] == 1]
+    T.close_pair(base)
+    if not ctx.check(ok and ch, 'control:honest-scenario-failed:tlcp:server-verifies-client', note='library client against library server'):
+        return
+    f_chain, f_priv, _ = build_chain(tag + '-foreign', None, leaf_cn='client')
+    other_priv = X.priv_from_seed(tag, 'attacker-key')
+    for variant in u['variants']:
+        c_end, s_end = socket.socketpair()
+        srv = T.Endpoint(ctx, srv_ctx, s_end, 's', rng.randrange(1, 1 << 30), False)
+        th = threading.Thread(target=srv.handshake)
+        th.start()
+        cl = HT.Client(c_end, ch[0], R.pub(enc_priv), rng)
+        note = None
+        try:
+            ctx.begin(['hostile-tlcp', variant])
+            if not cl.start():
+                note = 'server flight: ' + '; '.join(cl.log)
+            elif not cl.certificate_requested():
+                note = 'the server did not request a certificate'
+            else:
+                cert = HT.certificate_msg(c_chain)
+                if variant == 'honest':
+                    cl.send_plain(cert)
+                    cl.send_plain(cl.client_key_exchange())
+                    cl.send_plain(cl.certificate_verify(c_priv))
+                elif variant == 'no-certificate-verify':
+                    cl.send_plain(cert)
+                    cl.send_plain(cl.client_key_exchange())
+                elif variant == 'certificate-verify-with-other-key':
+                    cl.send_plain(cert)
+                    cl.send_plain(cl.client_key_exchange())
+                    cl.send_plain(cl.certificate_verify(other_priv))
+                elif variant == 'certificate-verify-garbage':
+                    cl.send_plain(cert)
+                    cl.send_plain(cl.client_key_exchange())
+                    cl.send_plain(cl.certificate_verify(None, garbage=rng.randbytes(rng.choice([1, 64, 71]))))
+                elif variant == 'certificate-verify-over-other-hash':
+                    cl.send_plain(cert)
+                    cl.send_plain(cl.client_key_exchange())
+                    cl.send_plain(cl.certificate_verify(c_priv, over=cl.hs[:-1]))
+                elif variant == 'no-certificate-no-verify':
+                    cl.send_plain(cl.client_key_exchange())
+                elif variant == 'empty-certificate-list':
+                    cl.send_plain(HT.hs_msg(11, b'\x00\x00\x00'))
+                    cl.send_plain(cl.client_key_exchange())
+                elif variant == 'certificate-twice':
+                    cl.send_plain(cert)
+                    cl.send_plain(cert)
+                    cl.send_plain(cl.client_key_exchange())
+                elif variant == 'foreign-chain-own-key':
+                    cl.send_plain(HT.certificate_msg(f_chain))
+                    cl.send_plain(cl.client_key_exchange())
+                    cl.send_plain(cl.certificate_verify(f_priv))
+                elif variant == 'certificate-verify-before-key-exchange':
+                    cl.send_plain(cert)
+                    cl.send_plain(cl.certificate_verify(c_priv))
+                    cl.send_plain(cl.client_key_exchange())
+                elif variant == 'server-certificate-as-client':
+                    cl.send_plain(HT.certificate_msg(s_chain[:1] + s_chain[2:]))
+                    cl.send_plain(cl.client_key_exchange())
+                    cl.send_plain(cl.certificate_verify(other_priv))
+                cl.change_cipher_spec()
+                cl.finished()
+        except (OSError, ValueError) as e:
+            note = 'peer: %s' % e
+        th.join(20)
+        hung = th.is_alive()
+        if hung:
+            try:
+                c_end.shutdown(socket.SHUT_RDWR)
+            except OSError:
+                pass
+            th.join(10)
+        det = dict(proto='tlcp', role='server-verifies-client', variant=variant, note=note, server_messages=cl.server_msgs)
+        if variant == 'honest':
+            ctx.check(srv.ret == 1 and note is None, 'control:python-peer-honest-handshake-failed:tlcp', server_ret=srv.ret, **det)
+            if srv.ret == 1:
+                got = {}
+                try:
+                    cl.app_data(b'hostile tlcp application data')
+                except OSError:
+                    pass
+
+                def rd():
+                    srv.thread_setup()
+                    got['r'] = srv.recv(256)
+                t2 = threading.Thread(target=rd)
+                t2.start()
+                t2.join(5)
+                if t2.is_alive():
+                    try:
+                        c_end.shutdown(socket.SHUT_RDWR)
+                    except OSError:
+                        pass
+                    t2.join(5)
+                r = got.get('r')
+                ctx.check(bool(r) and r[0] == 1 and r[1] == b'hostile tlcp application data', 'control:python-peer-application-data-not-delivered:tlcp',
+                          got=repr(r)[:80])
+            ctx.nontrivial('hostile-tlcp', 'honest', u.get('rep'))
+        else:
+            if hung:
+                ctx.stat('hostile_tlcp_server_waited_until_close')
+            ctx.check(srv.ret != 1, 'auth-bypass:hostile-client:%s:tlcp:server-verifies-client' % variant, server_ret=srv.ret, **det)
+            ctx.nontrivial('hostile-tlcp', variant, u.get('rep'))
+            ctx.stat('defect_cases')
+            if note is None:
+                ctx.stat('hostile_tlcp_variants_delivered')
+        for sk in (c_end, s_end):
+            try:
+                sk.close()
+            except OSError:
+                pass
+        srv.conn.free()
+    ctx.sample({'kind': 'hostile-tlcp', 'variants': len(u['variants'])})
+    srv_ctx.free()
+    cli_ctx.free()
+
+
 def run_unit(ctx, u):
-    {'case': u_case, 'hostile13': u_hostile13, 'hostile13-server': u_hostile13_server}[u['kind']](ctx, u)
+    {'case': u_case, 'hostile13': u_hostile13, 'hostile13-server': u_hostile13_server, 'hostile-tlcp': u_hostile_tlcp}[u['kind']](ctx, u)
